@@ -76,6 +76,22 @@ Theorem C07_ctr_sites_full_width :
   forall f tok, In (f, tok) gen_ctr_sites -> ctr_width_of tok = Some 128%N.
 Proof. exact ctr_sites_forall. Qed.
 
+(* ---- interoperability in the receiving direction: whatever blob the specification produces (i.e. any other
+        conforming implementation's output) unwraps to the wrapped key on the backends of its version ---- *)
+Theorem C07_spec_pie_blob_unwraps_v1_v3 : forall O, laws O -> forall ver header wk ptk n,
+  length n = 32 -> pie_unwrap (pieA O ver 128) header wk (spec_pieA O (ver ++ header) wk ptk n) = Ok ptk.
+Proof. exact spec_pieA_blob_unwraps. Qed.
+Theorem C07_spec_pie_blob_unwraps_v2_v4 : forall O, laws O -> forall ver header wk ptk n,
+  length n = 32 -> pie_unwrap (pieB O ver) header wk (spec_pieB O (ver ++ header) wk ptk n) = Ok ptk.
+Proof. exact spec_pieB_blob_unwraps. Qed.
+Theorem C07_spec_pbkw_blob_unwraps_v1_v3 : forall O, laws O -> forall ver z header pw ptk s i n,
+  (i < 2 ^ 32)%N -> (z = false \/ i <> 0%N) -> length s = 32 -> length n = 16 ->
+  pw_unwrap (pwA O ver 128 z) header pw (spec_pwA O (ver ++ header) pw ptk s i n) = Ok ptk.
+Proof. exact spec_pwA_blob_unwraps. Qed.
+
+Print Assumptions C07_spec_pie_blob_unwraps_v1_v3.
+Print Assumptions C07_spec_pie_blob_unwraps_v2_v4.
+Print Assumptions C07_spec_pbkw_blob_unwraps_v1_v3.
 Print Assumptions C07_pie_v1_v3_is_spec.
 Print Assumptions C07_pie_v2_v4_is_spec.
 Print Assumptions C07_pbkw_v1_v3_is_spec.
